@@ -413,3 +413,63 @@ func settle(skip map[int]bool, bound time.Duration) (census, bool) {
 		}
 	}
 }
+
+// ---------------------------------------------------------------------------------------------
+// harness-owned logger: silent, except that it can PARK the goroutine that logs AddConn's first
+// line ("Added connection: ... remote <addr> ..."), which tcpPacketConn.AddConn emits before it
+// takes t.mu.  This holds handleConn between its lookup and AddConn without touching the code.
+// ---------------------------------------------------------------------------------------------
+
+type parkPoint struct {
+	entered chan struct{}
+	release chan struct{}
+}
+
+type parkLogger struct {
+	mu    sync.Mutex
+	armed map[string]*parkPoint // remote address -> park point (one shot)
+}
+
+func newParkLogger() *parkLogger { return &parkLogger{armed: map[string]*parkPoint{}} }
+
+func (l *parkLogger) arm(raddr string) *parkPoint {
+	pp := &parkPoint{entered: make(chan struct{}), release: make(chan struct{})}
+	l.mu.Lock()
+	l.armed[raddr] = pp
+	l.mu.Unlock()
+	return pp
+}
+
+func (l *parkLogger) disarm(raddr string) {
+	l.mu.Lock()
+	delete(l.armed, raddr)
+	l.mu.Unlock()
+}
+
+func (l *parkLogger) Trace(string)          {}
+func (l *parkLogger) Tracef(string, ...any) {}
+func (l *parkLogger) Debug(string)          {}
+func (l *parkLogger) Debugf(string, ...any) {}
+func (l *parkLogger) Info(string)           {}
+func (l *parkLogger) Warn(string)           {}
+func (l *parkLogger) Warnf(string, ...any)  {}
+func (l *parkLogger) Error(string)          {}
+func (l *parkLogger) Errorf(string, ...any) {}
+
+func (l *parkLogger) Infof(format string, args ...any) {
+	if !strings.HasPrefix(format, "Added connection") || len(args) < 2 {
+		return
+	}
+	a, ok := args[1].(net.Addr)
+	if !ok {
+		return
+	}
+	l.mu.Lock()
+	pp := l.armed[a.String()]
+	delete(l.armed, a.String())
+	l.mu.Unlock()
+	if pp != nil {
+		close(pp.entered)
+		<-pp.release
+	}
+}
